@@ -43,7 +43,8 @@ pub fn msg_text(i: usize, w: usize) -> String {
         4 => "\nz".into(),
         5 => "\x1b[1m\x1b[0m".into(),
         // double-width text, wider than the terminal (truncated by {wide_msg}, wrapped otherwise)
-        _ => "日本語".repeat(w / 3 + 1),
+        6 => "日本語".repeat(w / 3 + 1),
+        _ => "t\n".into(),
     }
 }
 
@@ -224,7 +225,7 @@ impl Hist for C01 {
 
     fn alphabet(&self, _prefix: &[Op]) -> Vec<Op> {
         let mut v = vec![Op::Tick, Op::Inc, Op::SetPosToLen, Op::SetLength7];
-        v.extend((0..7).filter(|&i| i < 6 || self.w >= 2).map(Op::Msg));
+        v.extend((0..8).filter(|&i| i != 6 || self.w >= 2).map(Op::Msg));
         v.push(Op::Prefix);
         v.extend((0..4).filter(|&i| !self.reduced || i < 2).map(Op::Style));
         v.extend((0..4).map(Op::Println));
